@@ -211,6 +211,7 @@ func (db *RockDB) HMset(ts int64, key []byte, args ...common.KVRecord) error {
 	var num int64
 	var value []byte
 	tsBuf := PutInt64(ts)
+	args = dedupKVRecords(args)
 	for i := 0; i < len(args); i++ {
 		if err = checkCollKFSize(verKey, args[i].Key); err != nil {
 			return err
@@ -426,6 +427,7 @@ func (db *RockDB) HDel(ts int64, key []byte, args ...[]byte) (int64, error) {
 
 	var num int64 = 0
 	var newNum int64 = -1
+	args = dedupMembers(args)
 	for i := 0; i < len(args); i++ {
 		if err := common.CheckKeySubKey(rk, args[i]); err != nil {
 			return 0, err
